@@ -520,6 +520,12 @@ Theorem c04_operator_guards_in_source :
 Proof. exact operator_guards_in_source. Qed.
 Print Assumptions c04_operator_guards_in_source.
 
+Theorem c04_evaluation_limits_in_source :
+  max_anon_function_depth_src = Z.of_nat max_anon_function_depth /\ max_anon_function_calls_src = Z.of_N max_anon_function_calls
+  /\ max_evaluation_work_src = max_evaluation_work /\ function_call_work_src = function_call_work.
+Proof. exact evaluation_limits_in_source. Qed.
+Print Assumptions c04_evaluation_limits_in_source.
+
 (* meaning of site_ok for a registration with a maximum: every admitted count, not a sample *)
 Theorem c04_site_ok_sound_bounded : forall s r sh total,
   site_ok_for s r = true -> site_shift s r = Some sh -> (0 <= r_max r)%Z ->
@@ -547,16 +553,29 @@ Theorem c04_anonymous_functions_without_limits_diverge_refuted : forall fuel st,
 Proof. exact omega_never_returns. Qed.
 Print Assumptions c04_anonymous_functions_without_limits_diverge_refuted.
 
-(* WITH the limits (100 nested, 100000 total calls) every closed expression of the fragment returns a value (possibly
-   the error value) with fuel (100 + 2) * (height + 2): termination of the model evaluator is a theorem, not a
-   property of its definition *)
-Theorem c04_anonymous_function_evaluation_returns : forall e,
-  exists v st', leval_limited ((max_anon_function_depth + 2) * (height e + 2)) (LState 0 0) ENil e = (LRet v, st').
+(* WITH the limits (100 nested, 100000 total calls; the model also has the work budget of e14c6f8) every closed
+   expression of the fragment returns a value (possibly the error value) with fuel (100 + 2) * (height + 2), whatever
+   is left of the budget: termination of the model evaluator is a theorem, not a property of its definition.  The
+   depth limit is what the proof uses; the constants 100 and 100000 are read from excellent/tree.go on every run
+   (c04_evaluation_limits_in_source) *)
+Theorem c04_anonymous_function_evaluation_returns : forall e w,
+  exists v st', leval_limited ((max_anon_function_depth + 2) * (height e + 2)) (LState 0 0 w) ENil e = (LRet v, st').
 Proof. exact limited_eval_returns. Qed.
 Print Assumptions c04_anonymous_function_evaluation_returns.
 
 (* ... and it never makes more than 100000 calls of anonymous functions (the bound on the work) *)
-Theorem c04_anonymous_function_calls_bounded : forall fuel e,
-  (calls (snd (leval_limited fuel (LState 0 0) ENil e)) <= max_anon_function_calls)%N.
+Theorem c04_anonymous_function_calls_bounded : forall fuel e w,
+  (calls (snd (leval_limited fuel (LState 0 0 w) ENil e)) <= max_anon_function_calls)%N.
 Proof. exact limited_eval_calls_bounded. Qed.
 Print Assumptions c04_anonymous_function_calls_bounded.
+
+(* ---- the work budget (e14c6f8; model/ExLambda.v: the state also holds what is left of 5000000; operands, arguments
+   and results are charged their size, every call 100 before it is made; once the budget is used up everything is
+   the error value).  Every call of an anonymous function has been paid for: 100 * calls <= 5000000, i.e. at most
+   50000 calls per evaluation started with the full budget.  The constants are read from the source
+   (c04_evaluation_limits_in_source); the charging of texts, arrays and objects and the work reported by regex_match / has_pattern
+   are not modelled (oracle only) ---- *)
+Theorem c04_anonymous_function_calls_paid_from_work_budget : forall fuel e,
+  (function_call_work * Z.of_N (calls (snd (leval_limited fuel lstate0 ENil e))) <= max_evaluation_work)%Z.
+Proof. exact limited_eval_calls_paid. Qed.
+Print Assumptions c04_anonymous_function_calls_paid_from_work_budget.
